@@ -128,7 +128,8 @@ checks["C14"] = {"kani": [dict(h, also=["C06.collect", "C06.refund", "C07.pay_ga
 checks["C17"] = {"scans": ["c17_writers"], "kani": ops_all}
 checks["C15"] = {"kani": upgrades}
 checks["C16"] = {"kani": [k(GW, "executable::verif::c16_default_validate_message", "AxelarExecutableInterface::validate_message (default)"), k(EX, T + "c16_example_execute", "Example::execute"),
-                          k(GW, C + "c02_validate_message", "AxelarGateway::validate_message (the consumed approval: exactly once)", also=["C02.consume", "C02.refused"])]}
+                          k(GW, C + "c02_validate_message", "AxelarGateway::validate_message (the consumed approval: exactly once)", also=["C02.consume", "C02.refused"]),
+                          dict(gw_approve[1], also=["C02.approve_step"]), dict(gw_approve[2], also=["C02.approve_step"])]}
 checks["C06"] = {"kani": [
     k(GW, C + "c06_gateway_transfer_ownership", "AxelarGateway::transfer_ownership"), k(GW, C + "c06_gateway_transfer_operatorship", "AxelarGateway::transfer_operatorship"),
     k(GW, C + "c06_gateway_constructor", "AxelarGateway::__constructor"), gw_rotate_entry,
@@ -166,6 +167,7 @@ checks["C11"] = {"kani": [
     its("c11_id_derivations", "interchain_token_deploy_salt / interchain_token_id / canonical_token_deploy_salt"),
     its("c11_deploy_interchain_token", "deploy_interchain_token / deploy_interchain_token_contract"),
     its("c11_register_canonical_token", "register_canonical_token"), its("c11_registry_views", "token_address / token_manager_type"),
+    its("c11_deploy_needs_free_id", "deploy_interchain_token (registry invariant I-ITS)"), its("c11_register_preserves_registry_invariant", "register_canonical_token (registry invariant I-ITS)"),
     its_c04[3],
     tok("c11_token_constructor", "__constructor"), tok("c11_token_views", "token_id / is_minter / decimals / name / symbol"),
 ]}
